@@ -171,9 +171,28 @@ def w_ref_writes(arg):
                     res['violations'].append(('c14:ref-write:content', f'{p!r}: {len(got[p][0])} bytes restored, {len(want[p][0])} written by the reference'))
                 elif got[p][1] != want[p][1]:
                     res['violations'].append(('c14:ref-write:mtime' + (':legacy' if legacy else ''), f'{p!r}: mtime_ns {got[p][1]} != {want[p][1]}'))
-            rows = R.captured(repo.list_files(snapshot_regex=name, header=False))
-            if len([ln for ln in rows.splitlines() if ln.strip()]) != len(want):
+            from replicat.utils import FileListColumn
+            import datetime as _dt
+            rows = R.captured(repo.list_files(snapshot_regex=name, header=False, columns=[FileListColumn.PATH, FileListColumn.MTIME, FileListColumn.ATIME,
+                                                                                         FileListColumn.DIGEST, FileListColumn.SIZE]))
+            listed = {}
+            for ln in rows.splitlines():
+                cols = [c.strip() for c in ln.split('\t')]
+                if len(cols) >= 4 and cols[0]:
+                    listed[cols[0]] = cols
+            if len(listed) != len(want):
                 res['violations'].append(('c14:ref-write:list-files', 'list-files shows a different number of files'))
+            for fpath, data, md in files:
+                cols = listed.get(fpath)
+                if cols is None:
+                    continue
+                def fmt(ns):
+                    return _dt.datetime.fromtimestamp(ns // 10 ** 9, tz=_dt.timezone.utc).replace(tzinfo=None).isoformat(sep=' ', timespec='seconds')
+                if cols[1] != fmt(md['mtime_ns']) or cols[2] != fmt(md['atime_ns']):
+                    res['violations'].append(('c14:ref-write:list-files:timestamps' + (':legacy' if legacy else ''),
+                                              f'{fpath!r}: listed mtime/atime {cols[1]!r}/{cols[2]!r}, written {fmt(md["mtime_ns"])!r}/{fmt(md["atime_ns"])!r}'))
+                if cols[3] != wr.s.hash(data).hex():
+                    res['violations'].append(('c14:ref-write:list-files:digest', f'{fpath!r}: listed digest differs from Hash(content)'))
             ls = R.captured(repo.list_snapshots(header=False))
             if name not in ls or 'by the reference writer' not in ls:
                 res['violations'].append(('c14:ref-write:list-snapshots', 'list-snapshots does not show the reference snapshot / note'))
@@ -308,7 +327,7 @@ def unlock_tie(out, drv):
 
 def run(out, drv, info):
     quick = out.tier == 'quick'
-    n_sym, n_read, n_write = (150, 250, 250) if quick else (1500, 3000, 3000)
+    n_sym, n_read, n_write = (300, 500, 500) if quick else (1500, 3000, 3000)
     out.rule = ('cases: (a) symbolic history = settings (encrypted?, 5 ciphers, 12 hashes, 6 chunkings) × 4–8 ops of add-key (shared/independent) / snapshot (0–5 files from '
                 'shared blocks, empty files, note) / delete / clean by up to 4 keys, real Repository with tagged adapters vs sym.run; (b) replicat writes (real crypto) → '
                 'reference reader; (c) reference writer (modern / pre-1.3 metadata, chunks spanning files) → replicat restore + listings; (d) base64 / JSON hint / '
